@@ -3,7 +3,8 @@ import LouModel
 /-- every model module that takes part in the line protocol exports
     `handle? : List String → Option String`; first match wins -/
 def handlers : List (List String → Option String) := [
-  Lou.Proto.handle?
+  Lou.Proto.handle?,
+  Lou.Meta.handle?
 ]
 
 def handleLine (line : String) : String :=
